@@ -249,6 +249,30 @@ def build_app(seen, B_mem, max_body):
             seen['json'] = repr(rq.json)[:100]
         elif acc == 'body':
             seen['body'] = rq.body.read()
+        elif acc.endswith('_again'):
+            # an audit hook (or a fallback in the handler) looked first and swallowed the refusal; then the handler proper asks
+            base = acc[:-6]
+            import ombott as _o
+
+            def read_it():
+                if base == 'body':
+                    return rq.body.read()
+                if base == 'json':
+                    return repr(rq.json)[:100]
+                return {k: plain(v) for k, v in getattr(rq, base).items()}
+            try:
+                seen['first'] = read_it()
+            except _o.HTTPError as e:
+                seen['first_error'] = e.status_code
+            try:
+                seen['second'] = read_it()
+            except _o.HTTPError as e:
+                seen['second_error'] = e.status_code
+            if base != 'body':
+                # whatever became of the form: the raw body is still there for the application to look at
+                seen['body_after'] = rq.body.read()
+            if 'second_error' in seen:
+                raise _o.HTTPError(seen['second_error'], 'refused again')
         elif acc == 'all':
             seen['body'] = rq.body.read()
             seen['json'] = repr(rq.json)[:100]
@@ -356,6 +380,16 @@ def do_request(ctx, sc, apps, rng, body, ctype, framing, acc, B_mem, mclass, bou
     if r.code is None or r.code >= 500 or r.code < 200:
         ctx.violation(fault_signature(r.errors, r.code), f'{where}: {r.status}: {r.errors.strip().splitlines()[-1][:200] if r.errors.strip() else ""}', w)
         return
+    if acc.endswith('_again'):
+        ctx.count('accessor_asked_again_after_a_swallowed_refusal' if 'first_error' in seen else 'accessor_asked_twice')
+        # (observation, not a verdict: what an application sees that swallowed a refusal and asks again is not settled by the statement -
+        #  the unchanged tree hands out the dictionaries as far as they were filled, and the rest of the stream for a refused chunked body)
+        if 200 <= r.code < 300 and 'first' in seen and 'second' in seen and seen['first'] != seen['second']:
+            ctx.violation('accessor-gives-another-result-when-asked-again', f'{where}: {str(seen.get("first"))[:80]!r} then {str(seen.get("second"))[:80]!r}', w)
+            return
+        if 'body_after' in seen and sent is not None and framing == 'cl' and seen['body_after'] != sent and r.code != 413 and seen.get('first_error') != 413:
+            ctx.violation('raw-body-differs-after-the-form-was-read', f'{where}: {len(seen["body_after"])} bytes instead of {len(sent)} (first access: {seen.get("first_error", "ok")})', w)
+            return
     if 200 <= r.code < 300:
         ctx.count('status_2xx')
     elif 400 <= r.code < 500:
@@ -427,7 +461,7 @@ def wit(body, ctype, framing, acc, B_mem, max_body=None):
                      'truncated_witness': len(body) > 20000}}
 
 
-ACCS = ['forms', 'files', 'POST', 'params', 'json', 'body', 'all']
+ACCS = ['forms', 'files', 'POST', 'params', 'json', 'body', 'all', 'forms_again', 'POST_again', 'json_again', 'body_again', 'files_again']
 FRAMINGS = ['cl', 'cl', 'cl', 'chunked', 'cl_short', 'cl_less', 'bad_chunked', 'no_length', 'cl_garbage']
 
 
@@ -447,7 +481,7 @@ def multipart_unit(ctx, unit):
             if mclass.startswith('truncate'):
                 ctx.count('truncations')
             ctx.count('multipart_mutations')
-            acc = rng.choice(['forms', 'files', 'POST', 'forms', 'files', 'POST', 'params', 'all', 'body', 'json'])
+            acc = rng.choice(['forms', 'files', 'POST', 'forms', 'files', 'POST', 'params', 'all', 'body', 'json', 'forms_again', 'POST_again', 'files_again', 'body_again'])
             framing = rng.choice(FRAMINGS)
             B_mem = rng.choice([102400, 102400, 256, 64, 16])
             if framing in ('chunked', 'bad_chunked') and B_mem < 64:
@@ -491,13 +525,13 @@ def other_unit(ctx, unit):
                 if rng.random() < 0.2:
                     body = bytes(rng.choice(b'{}[]",:0123456789.eE-+ntf\\u \xff') for _ in range(rng.randint(0, 30)))
                 ct = rng.choice(CTYPES_JSON)
-                acc = rng.choice(['json', 'json', 'POST', 'forms', 'params', 'body', 'all', 'files'])
+                acc = rng.choice(['json', 'json', 'POST', 'forms', 'params', 'body', 'all', 'files', 'json_again', 'forms_again'])
                 ctx.count('json_bodies')
                 mclass = 'json'
             elif k == 'urlencoded':
                 body = bytes(rng.choice(b'a=&%+;\xff\x00 \r\nb1%zz%e9') for _ in range(rng.randint(0, 60)))
                 ct = rng.choice(['application/x-www-form-urlencoded', 'application/x-www-form-urlencoded; charset=utf-8', '', 'text/plain', 'application/octet-stream'])
-                acc = rng.choice(['forms', 'POST', 'params', 'files', 'body', 'json'])
+                acc = rng.choice(['forms', 'POST', 'params', 'files', 'body', 'json', 'forms_again', 'POST_again', 'json_again'])
                 ctx.count('urlencoded_bodies')
                 mclass = 'urlencoded'
             elif k == 'random':
